@@ -35,11 +35,13 @@ def silentOK (P : Protocol) (p p' : Phase) : Bool :=
 /-- every pc the non-protocol instruction `ins` at `pc` can transfer control to -/
 def succPcs (code : Code) (pc : Nat) (ins : Instr) : List Nat :=
   match ins with
-  | .read _ | .popItem .. | .collect | .iterBegin _ | .handler => [pc + 1]
+  | .read _ | .popItem .. | .collect | .iterBegin _ | .snapshot _ | .handler => [pc + 1]
   | .getItem .. | .setItem .. | .delItem .. | .yield _ => [pc + 1, raiseTarget code pc]
   | .iterNext d =>
     [pc + 1, findFrom (fun x => x.op == .loopEnd d) code (pc + 1) 0 + 1, raiseTarget code pc]
   | .loopEnd d => [findBack (fun x => x.op == .iterNext d) code pc code.length]
+  | .snapNext d => [pc + 1, findFrom (fun x => x.op == .snapEnd d) code (pc + 1) 0 + 1]
+  | .snapEnd d => [findBack (fun x => x.op == .snapNext d) code pc code.length]
   | .collNext => [pc + 1, findFrom (fun x => x.op == .collEnd) code (pc + 1) 0 + 1]
   | .collEnd => [findBack (fun x => x.op == .collNext) code pc code.length]
   | .skip n => [pc + n + 1]
@@ -49,6 +51,7 @@ def succPcs (code : Code) (pc : Nat) (ins : Instr) : List Nat :=
 /-- instructions that can never execute (the translator could not express the source) -/
 def isStuck : Instr → Bool
   | .unknown | .iterBegin .indexes | .iterNext .indexes => true
+  | .snapshot .docs | .snapshot .indexes | .snapNext .docs | .snapNext .indexes => true
   | _ => false
 
 def isOutOrBody : Phase → Bool
@@ -131,13 +134,28 @@ def mutatesTtl : Instr → Bool
   | .setItem .ttl _ | .delItem .ttl _ _ | .popItem .ttl _ => true
   | _ => false
 
-/-- no instruction changes `_ttl_indexes` (programs without TTL index creation / index drops) -/
-def ttlFrozen (code : Code) : Bool := code.all fun i => !mutatesTtl i.op
+/-- `_ttl_indexes` is mutated outside every section (store.py `create_index`, `drop_index`), so an
+    iterator over the live dict can find its size changed.  The discipline: the live dict is
+    never iterated — a thread that wants to walk it takes a snapshot (`Instr.snapshot`, one
+    action) and walks that -/
+def ttlIterSnapshotted (code : Code) : Bool :=
+  code.all fun i => !(i.op == .iterNext .ttl)
 
-/-- the store's lock discipline as far as `_documents` is concerned -/
+/-- the store's lock discipline: `_documents` is written under the writer section only and
+    iterated inside one reader section, the expiry pass tolerates a vanished key, and
+    `_ttl_indexes` is walked through snapshots only -/
 def Cfg.disciplined (cfg : Cfg) : Bool :=
-  cfg.codes.all fun c => docsGuarded c && docsIterScoped c && noNestedDel c
+  cfg.codes.all fun c => docsGuarded c && docsIterScoped c && noNestedDel c &&
+    ttlIterSnapshotted c
 
-def Cfg.ttlFrozen (cfg : Cfg) : Bool := cfg.codes.all RWLock.ttlFrozen
+/-! ### for the non-vacuity examples: programs that do touch `_ttl_indexes` -/
+
+/-- some thread of `cfg` changes `_ttl_indexes` (creates a TTL index / drops an index) -/
+def Cfg.mutatesTtl (cfg : Cfg) : Bool :=
+  cfg.codes.any fun c => c.any fun i => RWLock.mutatesTtl i.op
+
+/-- some thread of `cfg` walks `_ttl_indexes` (through a snapshot) -/
+def Cfg.walksTtl (cfg : Cfg) : Bool :=
+  cfg.codes.any fun c => c.any fun i => i.op == .snapNext .ttl
 
 end MongoModel.RWLock
